@@ -428,7 +428,12 @@ func c17GenOp(r *rig.Rand, keys []string, expiry bool) c17Op {
 		long := []uint32{60, 3600, 2592000, 2592001, 100000000, 2000000000}
 		return long[r.Intn(len(long))]
 	}
-	data := func() string { return c17Words[r.Intn(len(c17Words))] + strconv.Itoa(r.Intn(10)) }
+	data := func() string {
+		if r.Chance(8) {
+			return "" // zero bytes of data are legal for every write command
+		}
+		return c17Words[r.Intn(len(c17Words))] + strconv.Itoa(r.Intn(10))
+	}
 	buf := func() string {
 		x := r.Intn(100)
 		switch {
